@@ -86,8 +86,8 @@ func findTypesInPackage(
 			continue
 		}
 
-		// We want named types (struct, int, string, etc.)
-		namedType, ok := typeName.Type().(*types.Named)
+		// We want named types (struct, int, string, etc.); an alias stands for the type it denotes
+		namedType, ok := types.Unalias(typeName.Type()).(*types.Named)
 		if !ok {
 			continue
 		}
